@@ -40,6 +40,13 @@ def direct_cases(rng):
         for nm, f in (("+", lambda x=x, A=A: x + A), ("-", lambda x=x, A=A: x - A), ("*", lambda x=x, A=A: x * A), ("+r", lambda x=x, A=A: A + x), ("*r", lambda x=x, A=A: A * x)):
             add("TT %s TTM" % nm, "kind mismatch", True, f)
         add("dot", "TT matrix operand", True, lambda x=x, A=A: torchtt.dot(x, A))
+        add("dot", "TT matrix as first operand", True, lambda x=x, A=A: torchtt.dot(A, x))
+        # the SAME object in both positions must meet the same guards as two objects (shortcuts for a is b come before them easily)
+        add("dot", "the same TT matrix object twice", True, lambda A=A: torchtt.dot(A, A))
+        add("dot", "the same transposed TT matrix twice", True, lambda A=A: (lambda At: torchtt.dot(At, At))(A.t()))
+        add("bilinear_form", "the same TT tensor as operator and vectors", True, lambda x=x: torchtt.bilinear_form(x, x, x))
+        add("TT @ TT", "the same tensor object twice", True, lambda x=x: x @ x)
+        add("cat", "the same TT matrix object twice", True, lambda A=A: torchtt.cat((A, A), 0))
         add("mprod", "TT matrix operand", True, lambda A=A: A.mprod(torch.ones(2, A.N[0]), 0))
         add("cat", "TT matrix operand", True, lambda A=A: torchtt.cat((A, A), 0))
         add("TT @ TT", "no operator", True, lambda x=x: x @ x)
@@ -221,6 +228,15 @@ def direct_cases(rng):
     add("mprod", "more modes than factor matrices", True, lambda x3=x3: x3.mprod([torch.ones(2, 3, dtype=torch.float64)], [0, 2]))
     add("mprod", "more factor matrices than modes", True, lambda x3=x3: x3.mprod([torch.ones(2, 3, dtype=torch.float64), torch.ones(2, 2, dtype=torch.float64)], [0]))
     add("dot(axis)", "an axis named twice", False, lambda x3=x3: torchtt.dot(x3, T(rng, [3, 2]), [0, 0, 2]))
+    # invalid rank caps: a cap below 1, a per-bond list that is too short
+    xr = T(rng, [3, 4, 5])
+    add("round", "rank cap 0", False, lambda xr=xr: xr.round(1e-3, 0))
+    add("round", "negative rank cap", False, lambda xr=xr: xr.round(1e-3, -1))
+    add("round", "per-bond list with a cap 0", False, lambda xr=xr: xr.round(1e-3, [1, 0, 2, 1]))
+    add("round", "per-bond list with a cap 0 (operator)", False, lambda: TM(rng, [2, 3], [3, 2]).round(1e-3, [1, 0, 1]))
+    add("round", "per-bond list shorter than the number of bonds", False, lambda xr=xr: xr.round(1e-3, [1, 2]))
+    add("TT(dense)", "rank cap 0", False, lambda xr=xr: torchtt.TT(xr.full(), rmax=0))
+    add("TT(dense)", "per-bond list shorter than the number of bonds", False, lambda xr=xr: torchtt.TT(xr.full(), rmax=[1, 2]))
     add("TTM[...]", "a single integer for a one-mode operator", False, lambda: TM(rng, [3], [4])[2])
     add("TTM[...]", "a single slice for a one-mode operator", False, lambda: TM(rng, [3], [4])[1:3])
     add("riemannian_projection", "direction with a size-1 mode", False, lambda x3=x3: torchtt.manifold.riemannian_projection(x3, T(rng, [3, 1, 2])))
